@@ -41,9 +41,26 @@ func (x *Exec) deepCopyJSON(v Value) Value {
 		if v == nil {
 			return v
 		}
+		// a number held in an interface travels as JSON text and comes back, decoded into `any`, as the nearest
+		// float64 — whatever integer type it had when it was encoded
+		if b, ok := v.T.Underlying().(*types.Basic); ok && b.Info()&types.IsInteger != 0 {
+			if t, isT := v.V.(*Term); isT && t.S == SInt {
+				return &IfaceV{T: types.Typ[types.Float64], V: x.intToFloat(t, v.T)}
+			}
+		}
 		return &IfaceV{T: v.T, V: x.deepCopyJSON(v.V)}
 	case *Agg:
-		return copyVal(v)
+		c, _ := copyVal(v).(*Agg)
+		if c == nil {
+			return v
+		}
+		for i, e := range c.Elems {
+			switch e.(type) {
+			case *IfaceV, *Agg:
+				c.Elems[i] = x.deepCopyJSON(e)
+			}
+		}
+		return c
 	}
 	return v
 }
@@ -106,9 +123,73 @@ func (x *Exec) jsonEmpty(v Value) bool {
 // jsonConvert models "marshal a value of type st, unmarshal the text into a value of type dt" for two different
 // struct types: members are matched by their JSON names (case-sensitively), omitempty members that are empty are
 // not transmitted, members unknown to the target are ignored. Everything else must have identical types.
+func isRawMessage(t types.Type) bool {
+	n, ok := t.(*types.Named)
+	return ok && n.Obj().Pkg() != nil && n.Obj().Pkg().Path() == "encoding/json" && n.Obj().Name() == "RawMessage"
+}
+
 func (x *Exec) jsonConvert(v Value, st, dt types.Type, fold bool) (Value, bool) {
 	if types.Identical(st, dt) {
 		return x.deepCopyJSON(v), true
+	}
+	// a member decoded into json.RawMessage keeps its text: an integer its decimal text (an uninterpreted decimal
+	// token: ParseInt gives the integer back exactly), anything else an opaque JSON document
+	if isRawMessage(dt) {
+		val := v
+		if iv, ok := v.(*IfaceV); ok {
+			if iv == nil {
+				return x.byteSlice(x.toStrV(mkStr("null")).B), true
+			}
+			val = iv.V
+		}
+		if t, ok := val.(*Term); ok && t.S == SInt {
+			return x.byteSlice(x.newToken("dec", t).B), true
+		}
+		if iv, ok := v.(*IfaceV); ok {
+			return x.byteSlice(x.newToken("json", iv).B), true
+		}
+		return x.byteSlice(x.newToken("json", &IfaceV{T: st, V: v}).B), true
+	}
+	// a member whose text was kept (RawMessage) decoded into a Go value: an integer text into `any` is the nearest
+	// float64, into an integer type the integer; a JSON string into `any`/string the string
+	if isRawMessage(st) {
+		sl, _ := v.(*SliceV)
+		if sl == nil || sl.Len == 0 {
+			return x.zero(dt), true
+		}
+		ti := x.tokenOf(&StrV{B: x.bytesOf(sl)})
+		if ti == nil {
+			return nil, false
+		}
+		switch ti.kind {
+		case "dec":
+			t, _ := ti.arg.(*Term)
+			if t == nil {
+				return nil, false
+			}
+			if isEmptyIface(dt) {
+				return &IfaceV{T: types.Typ[types.Float64], V: x.intToFloat(t, types.Typ[types.Int64])}, true
+			}
+			if b, ok := dt.Underlying().(*types.Basic); ok && b.Info()&types.IsInteger != 0 {
+				return t, true
+			}
+		case "json":
+			arg := ti.arg
+			if iv, ok := arg.(*IfaceV); ok && iv != nil {
+				arg = iv.V
+			}
+			if isEmptyIface(dt) {
+				switch a := arg.(type) {
+				case *StrV:
+					return &IfaceV{T: types.Typ[types.String], V: a}, true
+				case *Term:
+					if a.S == SStr {
+						return &IfaceV{T: types.Typ[types.String], V: a}, true
+					}
+				}
+			}
+		}
+		return nil, false
 	}
 	if isEmptyIface(dt) {
 		return &IfaceV{T: st, V: x.deepCopyJSON(v)}, true
